@@ -258,6 +258,14 @@ func (s *Server) verifyConsensusFieldMain(cp *params.CaravelParams, seedHeader *
 		logging.Error("VerifyHeader failed")
 		return errors.New("illegal proposer")
 	}
+	// Only an online chamber member that sortition selected with at least one sub-user may propose
+	// (sortitionMgr.isProposer); VrfVerifyPriority alone also accepts a credential of zero sub-users,
+	// i.e. of a member that was NOT selected.
+	if validator.Status != params.ValidatorOnline || validator.Kind() != params.KindChamber || consensusData.SubUsers == 0 {
+		logging.Error("VerifyHeader failed. Proposer is not entitled.", "Round", consensusData.Round, "RoundIndex", consensusData.RoundIndex,
+			"status", validator.Status, "kind", validator.Kind(), "subUsers", consensusData.SubUsers)
+		return errors.New("illegal proposer")
+	}
 	vs, err := vldReader.GetValidatorsStat()
 	if err != nil {
 		return err
